@@ -726,3 +726,109 @@ pub fn show(b: &[u8]) -> String {
 pub fn pattern(n: usize) -> Vec<u8> {
     (0..n).map(|k| ((7 * k + 3) % 251) as u8).collect()
 }
+
+
+// ------------------------------------------------------------------------------------------
+// Logging as a dimension: the library logs through the `log` facade (debug! lines, a hex dump of
+// every buffer at trace level). With the level at Trace the argument expressions of those lines
+// are evaluated and formatted; with it Off (the default) they are dead code.
+
+struct SinkLogger;
+
+thread_local! {
+    static LOG_SINK: std::cell::RefCell<String> = std::cell::RefCell::new(String::new());
+}
+
+impl log::Log for SinkLogger {
+    fn enabled(&self, _: &log::Metadata) -> bool {
+        true
+    }
+    fn log(&self, record: &log::Record) {
+        use std::fmt::Write;
+        LOG_SINK.with(|s| {
+            let mut s = s.borrow_mut();
+            s.clear();
+            let _ = write!(s, "{}", record.args());
+            LOG_LINES.fetch_add(1, Ordering::Relaxed);
+        });
+    }
+    fn flush(&self) {}
+}
+
+static LOGGER: SinkLogger = SinkLogger;
+pub static LOG_LINES: AtomicU64 = AtomicU64::new(0);
+
+/// Switch the library's logging on (every record is formatted into a scratch buffer) or off.
+/// Process-wide: used by checks for a dedicated extra pass, never concurrently with a pass that
+/// expects it off.
+pub fn logging(on: bool) {
+    static INIT: std::sync::Once = std::sync::Once::new();
+    INIT.call_once(|| {
+        let _ = log::set_logger(&LOGGER);
+    });
+    log::set_max_level(if on { log::LevelFilter::Trace } else { log::LevelFilter::Off });
+}
+
+
+// ------------------------------------------------------------------------------------------
+// Process isolation: a case whose failure mode may be an abort (stack overflow, allocation
+// failure) runs in a child process `mc isolated <ID> <json>`.
+
+pub enum Isolated {
+    /// the child ran to its end: oracle failures it reported
+    Done(Vec<(String, String)>),
+    /// the child died (signal / abort / non-zero exit / timeout): description
+    Died(String),
+}
+
+pub fn run_isolated(id: &str, arg: &Value, timeout_s: u64) -> Result<Isolated, String> {
+    use std::io::Read;
+    use std::process::{Command, Stdio};
+    let exe = std::env::current_exe().map_err(|e| format!("current_exe: {}", e))?;
+    let mut child = Command::new(exe).args(["isolated", id, &arg.to_string()]).stdout(Stdio::piped()).stderr(Stdio::piped()).spawn().map_err(|e| format!("spawn: {}", e))?;
+    let mut out_pipe = child.stdout.take().ok_or("stdout")?;
+    let mut err_pipe = child.stderr.take().ok_or("stderr")?;
+    let out_t = std::thread::spawn(move || {
+        let mut s = String::new();
+        let _ = out_pipe.read_to_string(&mut s);
+        s
+    });
+    let err_t = std::thread::spawn(move || {
+        let mut s = String::new();
+        let _ = err_pipe.read_to_string(&mut s);
+        s
+    });
+    let t0 = std::time::Instant::now();
+    let status = loop {
+        heartbeat();
+        match child.try_wait().map_err(|e| format!("wait: {}", e))? {
+            Some(st) => break Some(st),
+            None => {
+                if t0.elapsed().as_secs() > timeout_s {
+                    let _ = child.kill();
+                    let _ = child.wait();
+                    break None;
+                }
+                std::thread::sleep(std::time::Duration::from_millis(20));
+            }
+        }
+    };
+    let out = out_t.join().unwrap_or_default();
+    let err = err_t.join().unwrap_or_default();
+    let Some(status) = status else {
+        return Ok(Isolated::Died(format!("no result within {} s (killed)", timeout_s)));
+    };
+    if !status.success() || !out.contains("ISOLATED-DONE") {
+        let last = err.lines().rev().find(|l| !l.trim().is_empty()).unwrap_or("").to_string();
+        return Ok(Isolated::Died(format!("child process ended with {} ({})", status, last.chars().take(160).collect::<String>())));
+    }
+    let mut v = Vec::new();
+    for l in out.lines() {
+        if let Some(j) = l.strip_prefix("ISOLATED-RESULT ") {
+            if let Ok(Value::Array(a)) = serde_json::from_str::<Value>(j) {
+                v.push((a[0].as_str().unwrap_or("").to_string(), a[1].as_str().unwrap_or("").to_string()));
+            }
+        }
+    }
+    Ok(Isolated::Done(v))
+}
